@@ -42,6 +42,20 @@ def secStep (s : Section) (op : Array Json) : Except String (Section × Json) :=
     let m ← getS op[1]!; let d ← getS op[2]!; let add ← (op[3]!).getBool?
     let (it, s') := s.get m d add
     pure (s', Json.arr #[jstr it.orig, jstr it.session, jstr it.value])
+  | "getdef" => do
+    -- get(key, default=section[src], add): when src is missing the real call is not made
+    let m ← getS op[1]!; let src ← getKey op[2]!; let add ← (op[3]!).getBool?
+    match s.getitem src with
+    | .error _ => pure (s, Json.str "skipped")
+    | .ok i =>
+      match s.items[i]? with
+      | none => pure (s, Json.str "skipped")
+      | some d =>
+        let (it, s') := s.getWithItem m d add
+        pure (s', Json.arr #[jstr it.orig, jstr it.session, jstr it.value])
+  | "setattr" => do
+    let k ← getS op[1]!; let v ← getS op[2]!
+    pure (s.setAttrValue k v, Json.str "ok")
   | _ => throw s!"unknown section op {name}"
 
 def handleSec (j : Json) : Except String Json := do
